@@ -369,6 +369,7 @@ class TxChecker:
     def __init__(self, tx, n_in, amount, sighash_mode="btc"):
         self.tx, self.n_in, self.amount, self.mode = tx, n_in, amount, sighash_mode
         self.sighash_calls = []
+        self.sig_checks = []         # (r, low s, hash type, digest) per signature whose digest was computed
         self.sig_results = []        # (hash type, digest, verified) per attempted verification, for coverage labels
 
     def sighash(self, script_code, hash_type, sigversion):
@@ -400,6 +401,7 @@ class TxChecker:
             s = N - s
         z = self.sighash(script_code, hash_type, sigversion)
         self.sighash_calls.append((hash_type, z))
+        self.sig_checks.append((r, s, hash_type, z))
         if z is None:
             return False
         ok = ecdsa_verify(pt, z, r, s)
